@@ -41,7 +41,7 @@ def thermostat(on, mode, fan, swing, temp_tenths, target, remote_id, salt=7, len
     b[79] = mode
     b[80] = target
     b[81] = (fan << 4) | swing
-    rid = remote_id.encode("ascii") if isinstance(remote_id, str) else remote_id
+    rid = remote_id.encode("utf-8") if isinstance(remote_id, str) else remote_id
     b[84:92] = rid + bytes(8 - len(rid))
     return bytes(b)
 
